@@ -131,17 +131,41 @@ for _f in sorted(_glob.glob(os.path.join(os.path.dirname(os.path.abspath(__file_
 
 
 def replay(prop, P, path, tier, seed):
+    """Re-run the recorded failing inputs: the harnesses are rebuilt from /repo's current tree and re-run with the
+    recorded seed and tier, only the recorded op lines are passed to the driver, and implementation result, model result
+    and spec verdict are printed for each.  (Failures that are not op lines — sanitizer reports, table facts, broken
+    theorems — are printed from the replay file.)"""
     data = json.load(open(path))
-    lines = []
+    seed = int(data.get("seed", seed))
+    tier = data.get("tier", tier)
+    os.environ["VERIF_SEED"] = str(seed)
+    os.environ["VERIF_TIER"] = tier
+    lhs = set()
     for f in data.get("failing_inputs", []):
-        if "line" in f and " => " in f["line"]:
-            lines.append(f["line"])
-    print("replay of", path)
-    print(json.dumps(data, indent=1)[:4000])
-    if lines:
-        res = cl.StreamResult()
-        cl.feed_driver(res, "replay", lines)
-        print("driver on recorded lines:", res.merge_counts())
-        for s in res.specfail + res.modeldiff:
-            print(" ", s["driver"])
-    return 0
+        if "line" in f and " =>" in f["line"]:
+            lhs.add(f["line"].split(" =>")[0].strip())
+    print("replay of %s (property %s, seed %d, tier %s): %d recorded op line(s)" % (path, prop, seed, tier, len(lhs)))
+    for f in data.get("failing_inputs", [])[:10]:
+        print("  recorded:", {k: (str(v)[:200]) for k, v in f.items() if k in ("kind", "stream", "line", "false_facts", "note")})
+    for p in data.get("problems", [])[:5]:
+        print("  recorded problem:", p.get("kind"), p.get("what"))
+    if not lhs:
+        print("no op line to re-run (see the recorded problems above)")
+        return 0
+    cl.regenerate()
+    cl.lake_build(["driver"])
+    cl.REPLAY_LHS = lhs
+    res = cl.StreamResult()
+    ctx = {"prop": prop, "tier": tier, "seed": seed, "gen": {}, "problems": []}
+    P["streams"](ctx, res)
+    print("re-run on the current tree: %d matching line(s) evaluated, %d spec failure(s), %d model difference(s)" % (
+        res.lines, max(len(res.specfail), res.specfail_total), max(len(res.modeldiff), res.modeldiff_total)))
+    for s_ in (res.specfail + res.modeldiff)[:20]:
+        print("  ", s_["driver"][:400])
+    if res.lines == 0:
+        print("  (the recorded inputs were not generated again: generator or seed changed; feeding the recorded lines as they are)")
+        r2 = cl.StreamResult()
+        cl.feed_driver(r2, "recorded", [f["line"] for f in data.get("failing_inputs", []) if "line" in f and " =>" in f["line"]])
+        for s_ in (r2.specfail + r2.modeldiff)[:20]:
+            print("  ", s_["driver"][:400])
+    return 1 if (res.specfail or res.specfail_total) else 0
